@@ -27,6 +27,9 @@ def cases(tier, seed):
         for n in (30, 3000):
             yield {"k": "wname", "files": [c07.fspec("ML", n, nm), c07.fspec("BAS", 30, "WORLD", "BAS")], "fill": "default"}
             yield {"k": "wname", "files": [c07.fspec("ML", 10, "FIRST"), c07.fspec("ASC", n, nm, "TXT"), c07.fspec("ML", 30, "LAST")], "fill": "default"}
+    # lists that do not fit, handed over in one call: whatever the buffer holds after the refusal must still be consistent
+    for sizes in ([66, 3], [30, 30, 30], [1, 68], [34, 34, 1]):
+        yield {"k": "overfull", "sizes": sizes, "fill": "default", "files": []}
     # fill histories: k-granule files until the disk is full (the images on the way are checked)
     for k in (1, 2, 3, 5, 9, 17, 34):
         yield {"k": "fill", "gran": k, "fill": "default", "files": []}
@@ -50,6 +53,25 @@ def check_case(case):
         except Exception as e:
             res.update(state="writer-error", outcome="writer-error")
             return res       # reported by C07 / C15
+    elif case["k"] == "overfull":
+        from cocoasm.virtualfiles.disk import DiskFile
+        df = DiskFile()
+        files = []
+        for i, k in enumerate(case["sizes"]):
+            if k == 66:
+                files += [c07.fspec("ML", 100, "S{}".format(j)) for j in range(66)]
+            else:
+                files.append(c07.fspec("ASC", k * 2304 - 7, "B{}".format(i), "TXT"))
+        stored = []
+        try:
+            df.add_files([C.to_coco(s) for s in files])
+            stored = files
+        except Exception:
+            stored = None
+        img = bytes(df.get_buffer())
+        if stored is None:
+            stored = [s for s in files if any(e["name"].rstrip() == s["name"].encode() for e in dskfs.entries(img))]
+        images.append(("overfull|{}".format("+".join(map(str, case["sizes"]))), img, stored))
     else:
         from cocoasm.virtualfiles.disk import DiskFile
         order = c07.order_by_name(case["fill"])
